@@ -185,6 +185,18 @@ def thm_case(rng, i):
         tag = "{{> p~}}"
         from .C11 import WS as _WS11
         exp = L0 + ("" if P[0] in "\n\r" else W) + with_indent(W, P) + R.lstrip(_WS11)
+    if tag != "{{> p~}}" and rng.chance(0.35):
+        # the family of C12.standalone_partial_output_is_indented: the partial's text is the value tag {{x}} and the (multi-line) text
+        # comes from the DATA, through any escape function: what the partial WRITES is indented, line by line
+        from .C02 import ident_name
+        from .common import escape_of
+        x = ident_name(rng)
+        escn = rng.pick(["none", "mark", "html"])
+        V = escape_of(escn)(P)
+        exp = L0 + ("" if V[0] in "\n\r" else W) + with_indent(W, V) + R
+        ops = [{"op": "reg_string", "reg": 0, "name": pname, "src": "{{%s}}" % x},
+               {"op": "render", "reg": 0, "api": "render_template", "src": L0 + W + tag + nl + R, "data": enc({x: P})}]
+        return {"kind": "session", "regs": [{"escape": escn}], "ops": ops}, {"thm": True, "expect": exp, "W": W, "where": "thm", "n": 1, "pi": False, "p": "{{%s}}" % x}
     ops = [{"op": "reg_string", "reg": 0, "name": pname, "src": P},
            {"op": "render", "reg": 0, "api": "render_template", "src": L0 + W + tag + nl + R, "data": enc({})}]
     return {"kind": "session", "regs": [{"escape": "none"}], "ops": ops}, {"thm": True, "expect": exp, "W": W, "where": "thm", "n": 1, "pi": False, "p": P}
